@@ -533,3 +533,46 @@ def synthloc(repo, schema=None, sites=None):
                 "compiler/front_end/constraints.py", f.line, act.name)
     res.analysed = ["compiler/front_end/constraints.py", "compiler/front_end/synthetics.py"]
     return res
+
+
+def errsink(repo):
+    """R-ERRSINK (C13/C16): diagnostics are collected in an `errors` list that is threaded through the checking functions.
+    A call that hands a callee's `errors` parameter a fresh empty list (`[]`, `list()`) throws that callee's diagnostics
+    away; combined with the "already typed, skip" shortcut of the type checker, an ill-typed expression is then never
+    reported.  Every argument bound to a parameter named `errors` must be the caller's own list (or a name that is
+    later merged into it)."""
+    res = RuleResult("R-ERRSINK")
+    for m in repo.compile_path_modules():
+        if not m.rel.startswith("compiler/front_end/") and not m.rel.startswith("compiler/util/"):
+            continue
+        for f in m.funcs.values():
+            for n in walk_no_nested_funcs(f.node):
+                if not isinstance(n, ast.Call):
+                    continue
+                callee = repo.resolve(m, n.func) if hasattr(repo, "resolve") else None
+                if not isinstance(callee, Func):
+                    continue
+                params = [a.arg for a in callee.node.args.args]
+                if "errors" not in params:
+                    continue
+                idx = params.index("errors")
+                arg = None
+                if idx < len(n.args):
+                    arg = n.args[idx]
+                for k in n.keywords:
+                    if k.arg == "errors":
+                        arg = k.value
+                if arg is None:
+                    continue
+                res.instances += 1
+                fresh = (isinstance(arg, ast.List) and not arg.elts) or \
+                        (isinstance(arg, ast.Call) and isinstance(arg.func, ast.Name) and arg.func.id == "list" and not arg.args)
+                if fresh:
+                    res.add(f"{m.rel}|{f.qualname}|{callee.name}", f"{f.qualname} calls {callee.name} with a fresh empty list as `errors`: whatever "
+                            f"{callee.name} reports is discarded, and because expressions that already carry a type are skipped later, the "
+                            "error is never reported at all", m.rel, n.lineno, f.qualname)
+    if res.instances < 20:
+        raise AnalysisError(f"only {res.instances} calls passing `errors` on were resolved")
+    res.samples = [f"{res.instances} calls hand their caller's error list on"]
+    res.analysed = ["compiler/front_end/*.py"]
+    return res
